@@ -237,18 +237,35 @@ def r3_scan(rep, ctx):
         return isinstance(t, ast.Call) and len(t.args) == 1 and isinstance(t.args[0], ast.Name) and t.args[0].id == var and ("nan" in ast.unparse(t.func).lower() or "isnam" in ast.unparse(t.func))
     from ..facts import facts as nfacts
     scfg = CFG(fn.node)
+    total_reads = 0
     for i, lp in enumerate(it_loops):
         var = lp.target.id if isinstance(lp.target, ast.Name) else None
-        # every read of the element other than the NaN test itself happens where `isnan(element)` is known false
+        # every read of this loop's element (inside the loop or after it, as long as it is this loop's binding that
+        # reaches the read) other than the NaN test itself happens where `isnan(element)` is known false
         ok = var is not None
+
+        def binding(node_, var=var):
+            """the definitions of the loop variable that reach a use (a fact about `var` counts only if it was
+            established for the same binding of the variable: the element of the same iteration)"""
+            try:
+                at_ = sres._at(node_)
+                return frozenset(idx for (nm, idx) in sres.IN[at_] if nm == var)
+            except Exception:
+                return None
+
+        mine = frozenset(idx for idx in range(len(sres.defs.get(var, []))) if sres.def_stmt.get((var, idx)) is lp) if var else frozenset()
         n_reads = 0
-        for x in own_nodes(lp):
+        for x in own_nodes(fn.node):
             if not (isinstance(x, ast.Name) and x.id == var and isinstance(x.ctx, ast.Load)):
                 continue
             par = getattr(x, "_parent", None)
             if isnan_test(par, var):
                 continue
-            if any(x is y for inner in own_statements(lp) if isinstance(inner, ast.For) and inner is not lp for y in ast.walk(inner.iter)):
+            bx = binding(x)
+            inside = any(x is y for y in ast.walk(lp))
+            if not (bx == mine and mine) and not (inside and bx is None):
+                if inside and bx is not None and (bx & mine):
+                    ok = False  # a read that this loop's element and another binding can both reach: not decidable here
                 continue
             n_reads += 1
             try:
@@ -256,20 +273,12 @@ def r3_scan(rep, ctx):
             except AnalysisError:
                 ok = False
                 continue
-            def binding_loop(node_):
-                p_ = getattr(node_, "_parent", None)
-                while p_ is not None and p_ is not fn.node:
-                    if isinstance(p_, ast.For) and any(isinstance(y, ast.Name) and y.id == var for y in ast.walk(p_.target)):
-                        return p_
-                    p_ = getattr(p_, "_parent", None)
-                return None
-
-            # (a fact about `var` counts only if it was established for the same binding of the loop variable)
-            if not any(k == "truth" and not pos and isnan_test(l_, var) and binding_loop(l_) is binding_loop(x) for k, l_, r_, pos in nfacts(scfg, nid)):
+            if not any(k == "truth" and not pos and isnan_test(l_, var) and binding(l_.args[0]) == bx for k, l_, r_, pos in nfacts(scfg, nid)):
                 ok = False
-        ok = ok and n_reads > 0
+        total_reads += n_reads
         rep.check(ok, "C12.R3", "scan:loop%d:nan-first" % i, "the loop skips NaN elements before anything else looks at them",
                   "a scan loop uses the element before (or without) the NaN test: a NaN element enters the min/max accumulators and fails or hides a limit violation", node=lp, fn=fn)
+    rep.floor("C12.R3", "reads of scanned elements", total_reads, 2)
     inner = it_loops[-1]
     var = inner.target.id
     mins, maxs = [], []
@@ -289,21 +298,28 @@ def r3_scan(rep, ctx):
               "the scan keeps min-like %s and max-like %s accumulators: the smallest or the largest element is not found" % (sorted(set(mins)), sorted(set(maxs))), node=inner, fn=fn)
     # both initialised from an element and both reach CheckValue after the inner loop
     outer = it_loops[0]
+    elem_names = {lp.target.id for lp in it_loops if isinstance(lp.target, ast.Name)}
+    H = scfg.node_of(inner)
     init_ok = False
-    for st in outer.body:
-        if isinstance(st, ast.Assign) and len(st.targets) == 2 and isinstance(st.value, ast.Name) and st.value.id == outer.target.id:
+    for st in own_statements(fn.node):
+        # `min = max = <element>` on the way to the scan loop (the element is known not to be NaN there: first part)
+        if isinstance(st, ast.Assign) and len(st.targets) == 2 and isinstance(st.value, ast.Name) and st.value.id in elem_names:
             if {t.id for t in st.targets if isinstance(t, ast.Name)} == set(mins) | set(maxs):
-                init_ok = True
+                n_st = scfg.node_of(st)
+                if inner is outer or scfg.dominated_by_node(H, lambda k, a, st=st: a is st):
+                    init_ok = True
     rep.check(init_ok, "C12.R3", "scan:initialised-from-element", "both accumulators start from the first non-NaN element", "the accumulators are not both initialised from the first non-NaN element", node=outer, fn=fn)
-    checked = set()
-    for st in outer.body:
-        if isinstance(st, ast.Expr) and is_checkvalue(st.value) and st.value.args and isinstance(st.value.args[0], ast.Name):
-            checked.add(st.value.args[0].id)
     want = set(mins) | set(maxs)
+    checked = set()
+    for acc in sorted(want):
+        # every path from the scan loop to a normal exit hands the accumulator to CheckValue
+        nodes = {scfg.node_of(st) for st in own_statements(fn.node) if isinstance(st, ast.Expr) and is_checkvalue(st.value) and st.value.args and isinstance(st.value.args[0], ast.Name) and st.value.args[0].id == acc}
+        if nodes and scfg.EXIT not in scfg.reach(H, avoid=nodes):
+            checked.add(acc)
     rep.check(bool(want) and want <= checked, "C12.R3", "scan:both-extremes-checked", "the smallest and the largest element are both handed to CheckValue",
               "only %s of the extremes %s reach CheckValue: a violation of the other limit goes unnoticed" % (sorted(checked), sorted(want)), node=outer, fn=fn)
     # float() normalisation must not swap them
-    for st in own_statements(outer):
+    for st in own_statements(fn.node):
         if isinstance(st, ast.Assign) and isinstance(st.targets[0], ast.Name) and st.targets[0].id in want and isinstance(st.value, ast.Call) and st.value.args:
             src = st.value.args[0]
             rep.check(isinstance(src, ast.Name) and src.id == st.targets[0].id, "C12.R3", "scan:normalise:%s" % st.targets[0].id, "normalising %s keeps it" % st.targets[0].id,
